@@ -9,12 +9,14 @@ from uecheck.common import cond_str
 from uecheck import sym
 fd = os.path.join(VERIF, ".work", sys.argv[1] if sys.argv[1].startswith("facts") else "facts-cov")
 args = sys.argv[2:] if sys.argv[1].startswith("facts") else sys.argv[1:]
+CANON = "--canon" in args
+args = [a for a in args if a != "--canon"]
 F = Facts(fd, None)
 for fid, f in sorted(F.fns.items()):
     if any(a in fid for a in args):
         print("==", fid, f.at())
         try:
-            for p in sym.walk(f, F):
+            for p in sym.walk(f, F, canon=CANON):
                 print("   [%s] -> %s   calls=%d end=%s" % (cond_str(p)[:300], short(p.ret, 10), len(p.calls()), p.end))
         except Exception as e:
             print("   walk failed:", e)
